@@ -752,38 +752,35 @@ func (p *Parser) parseTransferEncoding() error {
 //go:norace
 func (p *Parser) parseContentLength() (err error) {
 	vals := p.header[contentLengthHeader]
-	cl := ""
-	if len(vals) > 0 {
-		cl = textproto.TrimString(vals[0])
-		// the field may be repeated only with the same value.
-		for _, v := range vals[1:] {
-			if textproto.TrimString(v) != cl {
-				return fmt.Errorf("multiple Content-Length values %q: %w", vals, ErrInvalidContentLength)
-			}
-		}
-	}
-	if cl != "" {
-		if p.chunked {
-			return ErrUnexpectedContentLength
-		}
-		// digits only: ParseInt would take a sign.
-		if cl[0] < '0' || cl[0] > '9' {
-			return fmt.Errorf("%s %q", "bad Content-Length", cl)
-		}
-		l, err := strconv.ParseInt(cl, 10, 63)
-		if err != nil {
-			return fmt.Errorf("%s %q", "bad Content-Length", cl)
-		}
-		if l < 0 {
-			return fmt.Errorf("length less than zero (%d): %w", l, ErrInvalidContentLength)
-		}
-		if l > MaxInt {
-			return fmt.Errorf("length greater than maxint (%d): %w", l, ErrInvalidContentLength)
-		}
-		p.contentLength = int(l)
-	} else {
+	if len(vals) == 0 {
 		p.contentLength = -1
+		return nil
 	}
+	cl := textproto.TrimString(vals[0])
+	// the field may be repeated only with the same value.
+	for _, v := range vals[1:] {
+		if textproto.TrimString(v) != cl {
+			return fmt.Errorf("multiple Content-Length values %q: %w", vals, ErrInvalidContentLength)
+		}
+	}
+	if p.chunked {
+		return ErrUnexpectedContentLength
+	}
+	// digits only: an empty value is no length, and ParseInt would take a sign.
+	if cl == "" || cl[0] < '0' || cl[0] > '9' {
+		return fmt.Errorf("%s %q", "bad Content-Length", cl)
+	}
+	l, err := strconv.ParseInt(cl, 10, 63)
+	if err != nil {
+		return fmt.Errorf("%s %q", "bad Content-Length", cl)
+	}
+	if l < 0 {
+		return fmt.Errorf("length less than zero (%d): %w", l, ErrInvalidContentLength)
+	}
+	if l > MaxInt {
+		return fmt.Errorf("length greater than maxint (%d): %w", l, ErrInvalidContentLength)
+	}
+	p.contentLength = int(l)
 	return nil
 }
 
